@@ -178,6 +178,27 @@ impl C20 {
 		w: usize,
 		t: &TaskSpec,
 	) -> Option<Box<dyn FnOnce() -> TaskOutcome + Send + 'static>> {
+		if t.kind == "node_mine" || t.kind == "node_down" || t.kind == "node_up" {
+			let chain = ex.world.chain.chain.clone();
+			let sh = ex.world.chain.node.sh.clone();
+			let kc = ex.world.chain.miner_kc.clone();
+			let kind = t.kind.clone();
+			let key_index = 5000 + chain.head().map(|h| h.height as u32).unwrap_or(0);
+			return Some(Box::new(move || {
+				let r: Result<(), String> = match kind.as_str() {
+					"node_mine" => crate::chain::mine_standalone(&chain, &sh, &kc, key_index, true).map(|_| ()),
+					"node_down" => {
+						sh.fault.lock().unwrap().down = true;
+						Ok(())
+					}
+					_ => {
+						sh.fault.lock().unwrap().down = false;
+						Ok(())
+					}
+				};
+				TaskOutcome { ok: r.is_ok(), err: r.err(), slate: None, panicked: false }
+			}));
+		}
 		let owner = ex.world.owner(w);
 		let foreign = ex.world.foreign(w);
 		let mask = ex.world.mask(w);
@@ -467,6 +488,33 @@ impl C20 {
 			.filter_map(|t| t.m.map(|m| ex.msgs[m].slate.id))
 			.collect();
 		ex.world.chain.set_down(false);
+		let tier2 = tasks.iter().any(|t| t.kind.starts_with("node_"));
+		if tier2 {
+			// node events inside the window: one seeded interleaving, executed for real
+			// (the chain cannot be rolled back); judged by what needs no reference: no
+			// hang, and the recorded effects of every completed operation still present
+			let r = Self::run_interleaved(ex, w, &tasks, seed, explicit.clone().unwrap_or_default(), seed % 2 == 1);
+			ex.world.chain.set_down(false);
+			let mut result = json!({"tier": 2, "interleavings": 1, "gap_runs": 0, "serial_orders": 0, "distinct_schedules": 1, "violation": null});
+			match r {
+				Err(e) => {
+					result["violation"] = json!({"sig": if e.starts_with("DEADLOCK") { "deadlock" } else { "task_unbuildable" }, "detail": e, "schedule": []});
+				}
+				Ok((outs, choices, gaps, _)) => {
+					result["gap_runs"] = json!(gaps);
+					if outs.iter().any(|o| o.panicked) {
+						result["violation"] = json!({"sig": "ABORT", "detail": "task panicked", "schedule": choices});
+					} else if let Some((sig, detail)) = Self::completed_effects(ex, w, &tasks, &outs) {
+						result["violation"] = json!({
+							"sig": format!("completed_effect_lost:{}", sig),
+							"detail": format!("tasks {:?} (outcomes {:?}) under schedule {:?}: {}", tasks.iter().map(|t| t.kind.clone()).collect::<Vec<_>>(), outs.iter().map(|o| o.ok).collect::<Vec<_>>(), choices, detail),
+							"schedule": choices,
+						});
+					}
+				}
+			}
+			return OpRes::Ok { new_msg: None, note: result.to_string(), validated: None, new_wallet: None };
+		}
 		let saved = Self::save(ex, w);
 		// serial outcomes (all permutations of the tasks)
 		let mut serial: Vec<(Vec<usize>, Vec<String>)> = vec![];
@@ -584,6 +632,25 @@ impl Prop for C20 {
 			return self.gen.next(run);
 		}
 		self.scenarios += 1;
+		if run.rng.chance(1, 3) {
+			// tier 2: node events inside the window
+			let mut tasks = tasks;
+			let n_ev = 1 + run.rng.below(2);
+			for _ in 0..n_ev {
+				if tasks.len() >= 4 {
+					break;
+				}
+				let kind = *run.rng.pick(&["node_mine", "node_mine", "node_down", "node_up"]);
+				tasks.push(TaskSpec { kind: kind.into(), m: None, args: None, del: false });
+			}
+			run.cov.evaluations += 1;
+			run.cov.keys.insert(crate::rng::mix(&[run.seed, self.scenarios as u64, 0x72]));
+			run.cov.probe("tier2_scenario_with_node_events");
+			return Some(Step::new(Op::Custom {
+				name: "concurrent".into(),
+				args: json!({"w": w, "tasks": tasks, "seed": run.rng.below(1 << 40), "schedule": []}),
+			}));
+		}
 		let args = json!({"w": w, "tasks": tasks, "seed": run.rng.below(1 << 40)});
 		// search for a violating interleaving; if found, hand the explicit schedule to
 		// the engine so that the replay file contains exactly that interleaving
